@@ -929,6 +929,9 @@ def _case(loop, algo, seed, gens=3, edge="inside", **kw):
 def _hpo(c, mut="mixed", elitism=True, mutate_elite=False, **kw):
     c = dict(c)
     c.update(hpo=True, mut=mut, elitism=elitism, mutate_elite=mutate_elite)
+    # the tournament ranks by the mean of the last `tourn_window` fitness entries (its own eval_loop argument): with a
+    # window > 1 the best-ranked agent is regularly not the one with the best latest evaluation
+    c.setdefault("tourn_window", 1 + (int(c.get("seed", 0)) % 3))
     c.update(kw)
     return c
 
@@ -1019,6 +1022,11 @@ def cases(tier, seed):
     # informational probes: memories the learner has no arguments for
     out.append(_case("off", "DQN", s(), mem="per", info_only=True, gens=2))
     out.append(_case("off", "DDPG", s(), mem="nstep", info_only=True, gens=2))
+
+    # directed: tournaments that rank by a 3-evaluation window, protected elite, parameter mutations, >= 5 generations
+    out.append(_hpo(_case("off", "DQN", s(), num_envs=2, learn_step=2, evo_steps=8, gens=6, pop=4), mut="param", tourn_window=3))
+    out.append(_hpo(_case("on", "PPO", s(), num_envs=2, learn_step=4, evo_steps=8, gens=6, pop=4), mut="param", tourn_window=3))
+    out.append(_hpo(_case("ma_off", "MADDPG", s(), num_envs=2, learn_step=2, evo_steps=8, gens=5, pop=3), mut="param", tourn_window=2))
 
     # ------------------------------------------------------------ seeded random product
     nrand = 30 if tier == "quick" else 640
@@ -1199,7 +1207,7 @@ def _make_hpo(case, n_pop):
         tournament_size=int(case.get("tournament_size", 2)),
         elitism=bool(case.get("elitism", True)),
         population_size=n_pop,
-        eval_loop=int(case.get("eval_loop", 1)),
+        eval_loop=int(case.get("tourn_window", case.get("eval_loop", 1))),
     )
     return tourn, mut
 
